@@ -297,3 +297,62 @@ func verifLemma_C11_references(rs References, primary TypeAndNamespace, buffer [
 	verifrt.Assume(0 <= k && k < len(rs))
 	verifrt.Assert(got[k] == rs[k], "element")
 }
+
+// ---- C11: LatLngs lists ---------------------------------------------------------
+// Each point is two signed varints: the differences of latitude and longitude (E7,
+// int32 arithmetic) to the previous point, (0, 0) before the first.
+
+// vZig is encoding/binary's mapping of a signed varint onto an unsigned one.
+func vZig(x int64) uint64 {
+	ux := uint64(x) << 1
+	if x < 0 {
+		ux = ^ux
+	}
+	return ux
+}
+
+func llLatW(lls LatLngs, j int) uint64 {
+	last := int32(0)
+	if j > 0 {
+		last = lls[j-1].LatE7
+	}
+	return vZig(int64(lls[j].LatE7 - last))
+}
+
+func llLngW(lls LatLngs, j int) uint64 {
+	last := int32(0)
+	if j > 0 {
+		last = lls[j-1].LngE7
+	}
+	return vZig(int64(lls[j].LngE7 - last))
+}
+
+func llLen(lls LatLngs, j int) int {
+	return encoding.VerifUvlen(llLatW(lls, j)) + encoding.VerifUvlen(llLngW(lls, j))
+}
+
+func llPos(lls LatLngs, j int) int {
+	if j <= 0 {
+		return 0
+	}
+	return llPos(lls, j-1) + llLen(lls, j-1)
+}
+
+func llAt(b []byte, lls LatLngs, j int) bool {
+	p := llPos(lls, j)
+	q := p + encoding.VerifUvlen(llLatW(lls, j))
+	return encoding.VerifUvOK(b, p) && encoding.VerifUvVal(b, p) == llLatW(lls, j) && encoding.VerifUvLen(b, p) == encoding.VerifUvlen(llLatW(lls, j)) &&
+		encoding.VerifUvOK(b, q) && encoding.VerifUvVal(b, q) == llLngW(lls, j) && encoding.VerifUvLen(b, q) == encoding.VerifUvlen(llLngW(lls, j))
+}
+
+// C11: a LatLngs list of every length round-trips.
+func verifLemma_C11_latlngs(lls LatLngs, buffer []byte, k int) {
+	n := lls.MarshalWithoutLength(buffer)
+	verifrt.Ghost("w", lls)
+	got := make(LatLngs, 0)
+	m := got.UnmarshalWithoutLength(len(lls), buffer)
+	verifrt.Assert(m == n, "consumes-what-was-written")
+	verifrt.Assert(len(got) == len(lls), "length")
+	verifrt.Assume(0 <= k && k < len(lls))
+	verifrt.Assert(got[k] == lls[k], "element")
+}
